@@ -1216,7 +1216,8 @@ class Scheduler:
         self.backend.record_tags(
             TagEntity.Execution,
             self._current_execution.id,
-            chain(self._exec_tags, tags),
+            # A list, not a one-shot iterator: record_tags() may be retried (db_retry).
+            list(chain(self._exec_tags, tags)),
         )
 
         self.log(
